@@ -504,6 +504,11 @@ def c04(tier):
     fixed = lxc.fixed_termsets()
     for i, c in enumerate(chunks(fixed, 6)):
         specs.append({'seed': 20261003 + i, 'termsets': [[t.to_json() for t in ts] for ts in c], 'modes': modes, 'n_inputs': 120 if q else 400, 'corpus': True})
+    # generated term sets of the finding classes that tokenise correctly today (corpus/lexer_termsets.jsonl): obligations
+    from .grammar import Term as _T
+    stored = [[_T.from_json(t) for t in json.loads(l)] for l in open(os.path.join(common.VERIF, 'corpus', 'lexer_termsets.jsonl')) if l.strip()]
+    for i, c in enumerate(chunks(stored if not q else stored[:120], 6)):
+        specs.append({'seed': 20261004, 'termsets': [[t.to_json() for t in ts] for ts in c], 'modes': modes, 'n_inputs': 60 if q else 150, 'corpus': True})
     n = 96 if q else 2000
     sets = [lxc.gen_termset(rnd) for _ in range(n)]
     for i, c in enumerate(chunks(sets, 6)):
